@@ -285,6 +285,135 @@ def drive_decorator(path, idle_timeout, idle_for, create_row):
     return obs
 
 
+class _Job(_Event):
+    dur: float = 0.0
+
+
+class _Nobody(_Event):
+    pass
+
+
+def drive_decorator_rearm(path, idle_timeout, wait_timeout, send_after, dur, tail):
+    """The same stack with a lifecycle row (the harness creates it), a run whose idle periods are re-armed from inside:
+    the start step waits for an event with a timeout SHORTER than idle_timeout, so the run announces idle, is woken by
+    its own waiter timeout (an internal tick: nothing was received from outside), and announces idle again while the
+    first release timer is still pending.  `send_after` seconds after that second idle mark a job arrives from outside
+    and keeps a step busy for `dur` seconds; the scenario then stays quiet for `tail` seconds.  Returns the release
+    attempts with what the run was doing at that instant."""
+    from llama_agents.server._runtime.persistence_runtime import TickPersistenceDecorator
+    from llama_agents.server._store.memory_workflow_store import MemoryWorkflowStore
+    from llama_agents.server._store.abstract_workflow_store import PersistentHandler
+    from workflows import Context, Workflow, step
+    from workflows.events import StartEvent, StopEvent
+    from workflows.plugins.basic import BasicRuntime
+    from workflows.runtime.types.ticks import TickAddEvent
+    new_db(path)
+    obs = dict(attempts=[], bodies=[], idle_marks=[], errors=[])
+    state = dict(running=0)
+    loop_time = lambda: asyncio.get_event_loop().time()  # noqa: E731
+
+    class W(Workflow):
+        @step
+        async def start(self, ctx: Context, ev: StartEvent) -> None:
+            try:
+                await ctx.wait_for_event(_Nobody, waiter_id="w", timeout=wait_timeout)
+            except asyncio.TimeoutError:
+                obs["bodies"].append(("wait-timeout", loop_time()))
+            return None
+
+        @step
+        async def job(self, ctx: Context, ev: _Job) -> None:
+            state["running"] += 1
+            obs["bodies"].append(("job-enter", loop_time()))
+            try:
+                await asyncio.sleep(ev.dur)
+                obs["bodies"].append(("job-exit", loop_time()))
+            except asyncio.CancelledError:
+                obs["bodies"].append(("job-cancelled", loop_time()))
+                raise
+            finally:
+                state["running"] -= 1
+            return None
+
+        @step
+        async def fin(self, ctx: Context, ev: _Fin) -> StopEvent:
+            return StopEvent(result="done")
+
+    class RecLock(SqliteRunLifecycleLock):
+        async def begin_release(self, run_id):
+            r = await super().begin_release(run_id)
+            obs["attempts"].append(dict(t=loop_time(), ok=bool(r), running_bodies=state["running"]))
+            return r
+
+    class RecDec(DIR.DBOSIdleReleaseDecorator):
+        def _schedule_deferred_release(self, run_id):
+            obs["idle_marks"].append(loop_time())
+            return super()._schedule_deferred_release(run_id)
+
+    async def main():
+        store = MemoryWorkflowStore()
+        lock = RecLock(path)
+        rt = RecDec(TickPersistenceDecorator(BasicRuntime(), store), store=store,
+                    idle_timeout=idle_timeout, lifecycle_lock=lambda: lock)
+        w = W(timeout=None, disable_validation=True)
+        w._switch_workflow_name("w")
+        w._switch_runtime(rt)
+        import datetime as _dt
+        now = _m2.datetime.now(_dt.timezone.utc)
+        await store.update(PersistentHandler(handler_id="h1", workflow_name="w", status="running", run_id="r1",
+                                             started_at=now, updated_at=now))
+        await lock.create("r1")
+        t0 = loop_time()
+        h = w.run(run_id="r1")  # noqa: F841
+        # wait for the second idle mark (after the waiter timeout)
+        for _ in range(4000):
+            if len(obs["idle_marks"]) >= 2:
+                break
+            await asyncio.sleep(1 / 64)
+        obs["second_mark_at"] = (obs["idle_marks"][1] - t0) if len(obs["idle_marks"]) >= 2 else None
+        await asyncio.sleep(send_after)
+        obs["sent_at"] = loop_time() - t0
+        try:
+            await rt.get_external_adapter("r1").send_event(TickAddEvent(event=_Job(dur=dur)))
+        except Exception as e:  # noqa: BLE001
+            obs["errors"].append("send_event: %r" % (e,))
+        await asyncio.sleep(dur + tail)
+        inner = rt._decorated.get_external_adapter("r1")
+        obs["loop_alive"] = bool(getattr(inner, "is_running", True))
+        c = sqlite3.connect(path)
+        obs["row"] = c.execute("SELECT state FROM run_lifecycle WHERE run_id='r1'").fetchone()
+        c.close()
+        obs["t0"] = t0
+        for a in obs["attempts"]:
+            a["t"] -= t0
+        obs["bodies"] = [(k, t - t0) for k, t in obs["bodies"]]
+        obs["idle_marks"] = [t - t0 for t in obs["idle_marks"]]
+        for t in asyncio.all_tasks():
+            if t is not asyncio.current_task():
+                t.cancel()
+        await asyncio.sleep(0)
+
+    vloop.run(main())
+    return obs
+
+
+def monitor_rearm(o, idle_timeout, dur):
+    """C26 on one drive_decorator_rearm observation: a release is only ever begun on a run with no running work, and an
+    event accepted from outside is processed to the end"""
+    out = []
+    for a in o["attempts"]:
+        if a["ok"] and a["running_bodies"]:
+            out.append("begin_release succeeded at t=%.3f while %d step invocations were running (idle marks at %s, the job "
+                       "arrived at t=%.3f): the run is released in the middle of a step"
+                       % (a["t"], a["running_bodies"], ["%.3f" % x for x in o["idle_marks"]], o["sent_at"]))
+    kinds = [k for k, _ in o["bodies"]]
+    if not o["errors"] and "job-enter" in kinds and "job-exit" not in kinds:
+        out.append("the job sent at t=%.3f was accepted and started but never finished (%s)" % (o["sent_at"], o["bodies"]))
+    if not o["errors"] and "job-enter" not in kinds:
+        out.append("the job sent at t=%.3f was accepted but never started" % o["sent_at"])
+    return out
+
+
 def create_call_sites():
     """number of `.create(` calls on a lifecycle lock in the DBOS package sources (by AST)"""
     import ast
